@@ -26,6 +26,19 @@ var rtSeed int64 = 1
 var rtThorough bool
 
 var reErrFile = regexp.MustCompile(`(?m)^(?:\./)?(p\d+)/[^\s:]+\.go:\d+:\d+: (.*)$`)
+var reCyclePkg = regexp.MustCompile(`(?m)^(?:package|\s+imports) c16gen/(p\d+)/`)
+
+// cycleText: the lines of the build output that mention the packages of program pid
+func cycleText(out, pid string) string {
+	var ls []string
+	for _, l := range strings.Split(out, "\n") {
+		if strings.Contains(l, "c16gen/"+pid+"/") {
+			ls = append(ls, strings.TrimSpace(strings.Replace(l, "c16gen/"+pid+"/", "", -1)))
+		}
+	}
+	return strings.Join(ls, " ")
+}
+
 var rePkgHdr = regexp.MustCompile(`(?m)^# c16gen/(p\d+)/`)
 
 func compileLocus(msgs []string) string {
@@ -62,9 +75,29 @@ func compileAndCheck(e *env, cases []*caseOp, results []*caseResult, res *common
 		return
 	}
 	t0 := time.Now()
-	out, err := runCmd(e.buildDir, e.goenv, 15*time.Minute, "go", "build", "./...")
-	res.Note("go build of %d emitted programs: %.1fs", len(accepted), time.Since(t0).Seconds())
 	failed := map[string][]string{}
+	var out string
+	var err error
+	for round := 0; round < 25; round++ {
+		out, err = runCmd(e.buildDir, e.goenv, 15*time.Minute, "go", "build", "./...")
+		if err == nil || !strings.Contains(out, "import cycle not allowed") {
+			break
+		}
+		// an import cycle stops the whole build at load time: note the programs involved, take their
+		// packages out and build the rest
+		cyc := map[string]bool{}
+		for _, m := range reCyclePkg.FindAllStringSubmatch(out, -1) {
+			cyc[m[1]] = true
+		}
+		if len(cyc) == 0 {
+			break
+		}
+		for pid := range cyc {
+			failed[pid] = append(failed[pid], "import cycle not allowed: "+strings.Join(strings.Fields(cycleText(out, pid)), " "))
+			os.RemoveAll(filepath.Join(e.buildDir, pid))
+		}
+	}
+	res.Note("go build of %d emitted programs: %.1fs", len(accepted), time.Since(t0).Seconds())
 	if err != nil {
 		for _, m := range reErrFile.FindAllStringSubmatch(out, -1) {
 			failed[m[1]] = append(failed[m[1]], m[2])
